@@ -949,7 +949,7 @@ func (vc *FnVC) modItem(env *Env, item string) (string, string, error) {
 	if strings.HasPrefix(item, "key ") { // raw state key
 		k := strings.TrimSpace(item[4:])
 		if ki := vc.G.keyInfo(k); ki != nil {
-			vc.key(ki.Name, ki.Sort, ki.Kind)
+			vc.keyFrom(ki)
 			return k, "*", nil
 		}
 		return "", "", fmt.Errorf("unknown state key %s", k)
